@@ -167,6 +167,9 @@ func childMain(args []string) {
 		os.Rename(rf+".tmp", rf)
 	}
 	opts := chainkit.Opts{Dir: dir, KeepDir: true, GenesisTime: uint32(gt), ChainOpts: &chain.NewChanOpts{DoNotRescan: mode != "library"}}
+	if v, err := strconv.ParseUint(os.Getenv("C07_MAXDAT"), 10, 64); err == nil {
+		opts.BlockDBOpts = blockDBOpts(v) // the workload's data-file roll-over size: the same configuration in every restart
+	}
 	var k *chainkit.Kit
 	open := func() (s string) {
 		defer func() {
@@ -202,7 +205,11 @@ func childMain(args []string) {
 	if strings.HasPrefix(res.Recovery, "panic") {
 		return
 	}
+	submitted := map[string][]byte{}
 	for i, raw := range readBlocksFile(bf) {
+		if len(raw) >= 80 {
+			submitted[hex.EncodeToString(btc.NewSha2Hash(raw[:80]).Hash[:])] = raw
+		}
 		r := k.Submit(raw)
 		if !r.OK() {
 			s := r.String()
@@ -223,8 +230,12 @@ func childMain(args []string) {
 	res.S3 = stateOf(k.Ch)
 	// every block of the active chain must still be readable from the store
 	for n := k.Ch.LastBlock(); n != nil && n.Parent != nil; n = n.Parent {
-		if _, _, e := k.Ch.Blocks.BlockGet(n.BlockHash); e != nil {
+		if d, _, e := k.Ch.Blocks.BlockGet(n.BlockHash); e != nil {
 			res.Readable = fmt.Sprintf("block %d %s: %s", n.Height, n.BlockHash.String(), e.Error())
+		} else if len(d) < 80 || !btc.NewSha2Hash(d[:80]).Equal(n.BlockHash) {
+			res.Readable = fmt.Sprintf("block %d %s: the store returns %d bytes of another block", n.Height, n.BlockHash.String(), len(d))
+		} else if want, ok := submitted[hex.EncodeToString(n.BlockHash.Hash[:])]; ok && string(want) != string(d) {
+			res.Readable = fmt.Sprintf("block %d %s: the store returns %d bytes that differ from the %d bytes submitted", n.Height, n.BlockHash.String(), len(d), len(want))
 		}
 	}
 	write()
